@@ -180,6 +180,34 @@ pub fn run(args: &Args) -> Report {
             }
         }
     }
+    // aliasParams: /u/aliases/{dt}/{dbl}?u&b&sl&dts* — aliases of PLAIN primitives travel as the
+    // primitive's PLAIN text (computed here from the primitive, not from the alias)
+    {
+        use conjure_object::{DateTime, SafeLong, ToPlain, Utc, Uuid};
+        let dts: Vec<DateTime<Utc>> = [(0i64, 0u32), (253402300799, 999_999_999), (1, 1000), (1_600_000_000, 123_000_000)].iter().map(|(s, n)| DateTime::from_timestamp(*s, *n).unwrap()).collect();
+        let rid_a = RidAlias(rid.clone());
+        for (i, dt) in dts.iter().enumerate() {
+            for d in [0.0f64, -0.0, 1.5, f64::NAN, f64::INFINITY, f64::NEG_INFINITY, 1e21, 5e-324] {
+                report.states += 1;
+                let u = Uuid::from_u128(0x0123_4567_89ab_cdef_fedc_ba98_7654_3210 + i as u128);
+                let sl = SafeLong::new(-(i as i64) - 1).unwrap();
+                let list: Vec<DtAliasAlias> = dts.iter().take(i + 1).map(|x| DtAliasAlias(DtAlias(*x))).collect();
+                for asynch in [false, true] {
+                    let _ = vcommon::catch(|| {
+                        if asynch {
+                            block_on(rig.async_client().alias_params(DtAlias(*dt), DblAlias(d), UuidAlias(u), BoolAlias(i % 2 == 0), Some(SlAlias(sl)), &list, &rid_a, None)).map(|_| ())
+                        } else {
+                            rig.client().alias_params(DtAlias(*dt), DblAlias(d), UuidAlias(u), BoolAlias(i % 2 == 0), Some(SlAlias(sl)), &list, &rid_a, None).map(|_| ())
+                        }
+                    });
+                    let segs = [Seg::Lit("u"), Seg::Lit("aliases"), Seg::Param(0), Seg::Param(1)];
+                    let mut query: Vec<(&str, String)> = vec![("u", u.to_plain()), ("b", (i % 2 == 0).to_plain()), ("sl", sl.to_plain())];
+                    query.extend(dts.iter().take(i + 1).map(|x| ("dts", x.to_plain())));
+                    judge(&mut report, "aliasParams", if asynch { "async" } else { "blocking" }, "typed", &last(&rig, asynch), &segs, &[dt.to_plain(), d.to_plain()], &query);
+                }
+            }
+        }
+    }
     // a macro client / macro server pair whose query names hold reserved characters
     crate::c04m::run_weird_for_c07(args, &mut report);
     report.sample("generated-client", json!({"endpoint": "outOfOrder", "template": "/u/ooo/{first}/mid/{second}/{third}", "declared": ["third", "second", "q", "first"]}));
